@@ -128,7 +128,9 @@ def body(mc, p):
         fns.append(Script(mc, "fn%d" % i, entries))
 
     def submit(i):
-        fs[i] = ex.submit(fns[i], ("a", i), kw=("k", i))
+        # keyword names that the library's own extended submit methods use as parameter names
+        # (submit_timeout(timeout, ...), submit_retry(retry_policy, ...)) are ordinary keywords of the callable
+        fs[i] = ex.submit(fns[i], ("a", i), kw=("k", i), timeout=("t", i), retry_policy=("p", i))
         fs[i].add_done_callback(lambda f, i=i: mc.emit("done", i=i))
     if p.get("single"):
         submit(0)                   # one submission only: keeps the d=3 exploration small
@@ -185,7 +187,8 @@ def check(x):
         x.require(x.obs["ncalls"][i] == ncalls, "invocation-count", depth=len(p["layers"]),
                   detail="stack=%s script=%s: %d calls, reference %d" % ("+".join(p["layers"]), sk, x.obs["ncalls"][i], ncalls))
         for a, k in x.obs["args"][i]:
-            x.require(a == (("a", i),) and k == (("kw", ("k", i)),), "wrong-arguments", detail=repr((a, k)))
+            x.require(a == (("a", i),) and k == (("kw", ("k", i)), ("retry_policy", ("p", i)), ("timeout", ("t", i))),
+                      "wrong-arguments", detail=repr((a, k)))
         x.require(len([e for e in x.log if e["kind"] == "done" and e["i"] == i]) == 1, "done-callback-count")
     for name, exc in x.deaths:
         x.require(False, "thread-died", thread=name.split("-")[0].split("_")[0], exc=exc[0], detail=exc[2][-500:])
